@@ -142,6 +142,11 @@ type Sim struct {
 
 var cur atomic.Pointer[Sim]
 
+// GlobalSteps counts scheduling steps of all simulations of this process: the
+// worker's watchdog calls a run stalled only when no step is taken for a long
+// time (a goroutine that never reaches a yield), never because a run is long.
+var GlobalSteps atomic.Int64
+
 // Cur returns the simulation the calling code runs under, or nil.
 func Cur() *Sim { return cur.Load() }
 
@@ -586,6 +591,7 @@ func (s *Sim) Run(root func()) string {
 			select {
 			case <-s.wake:
 				s.IdleJumps++
+				GlobalSteps.Add(1)
 				continue
 			case <-idle.C:
 				if s.rootDone.Load() {
@@ -614,6 +620,7 @@ func (s *Sim) Run(root func()) string {
 		pg := s.parked[pick]
 		delete(s.parked, pick)
 		s.Steps++
+		GlobalSteps.Add(1)
 		if pick != s.last {
 			s.Switches++
 			s.last = pick
